@@ -1,0 +1,98 @@
+//go:build verif
+
+package jen
+
+import (
+	"bytes"
+	"fmt"
+	"reflect"
+)
+
+// VerifDump describes a Code value as it is stored (plain maps and slices, ready for
+// encoding/json), so that the verification harness can compare the real structure and its
+// rendering with the specification. Pointers are reported as opaque identities.
+func VerifDump(c Code) map[string]interface{} {
+	id := func(v interface{}) string {
+		rv := reflect.ValueOf(v)
+		switch rv.Kind() {
+		case reflect.Ptr, reflect.Map:
+			return fmt.Sprintf("%x", rv.Pointer())
+		}
+		return ""
+	}
+	list := func(items []Code) []interface{} {
+		out := make([]interface{}, 0, len(items))
+		for _, it := range items {
+			out = append(out, VerifDump(it))
+		}
+		return out
+	}
+	switch v := c.(type) {
+	case nil:
+		return map[string]interface{}{"k": "nil"}
+	case *Statement:
+		if v == nil {
+			return map[string]interface{}{"k": "nil"}
+		}
+		return map[string]interface{}{"k": "stmt", "id": id(v), "items": list(*v)}
+	case *Group:
+		if v == nil {
+			return map[string]interface{}{"k": "nil"}
+		}
+		return map[string]interface{}{"k": "grp", "id": id(v), "name": v.name, "open": v.open, "close": v.close,
+			"sep": v.separator, "multi": v.multi, "items": list(v.items)}
+	case *File:
+		if v == nil {
+			return map[string]interface{}{"k": "nil"}
+		}
+		return VerifDump(v.Group)
+	case token:
+		text := fmt.Sprint(v.content)
+		switch v.typ {
+		case literalToken, literalRuneToken, literalByteToken:
+			// the text of a literal is what the token renders on its own
+			buf := &bytes.Buffer{}
+			func() {
+				defer func() {
+					if r := recover(); r != nil {
+						buf.Reset()
+						fmt.Fprintf(buf, "<panic: %v>", r)
+					}
+				}()
+				v.render(nil, buf, nil)
+			}()
+			text = buf.String()
+		}
+		return map[string]interface{}{"k": "tok", "typ": string(v.typ), "text": text}
+	case Dict:
+		pairs := []interface{}{}
+		for k, val := range v {
+			pairs = append(pairs, map[string]interface{}{"keyid": id(k), "key": VerifDump(k), "val": VerifDump(val)})
+		}
+		return map[string]interface{}{"k": "dict", "id": id(v), "pairs": pairs}
+	case comment:
+		return map[string]interface{}{"k": "cmt", "text": v.comment}
+	case tag:
+		m := map[string]interface{}{}
+		for k, val := range v.items {
+			m[k] = val
+		}
+		return map[string]interface{}{"k": "tag", "m": m}
+	}
+	return map[string]interface{}{"k": "unknown", "type": fmt.Sprintf("%T", c)}
+}
+
+// VerifRenderRaw renders a Code value with the given File exactly as the first half of
+// RenderWithFile does, and returns the bytes as they are before formatting.
+func VerifRenderRaw(c Code, f *File) ([]byte, error) {
+	buf := &bytes.Buffer{}
+	if err := c.render(f, buf, nil); err != nil {
+		return nil, err
+	}
+	return buf.Bytes(), nil
+}
+
+// VerifFileMeta exposes the file-level settings that are not exported.
+func VerifFileMeta(f *File) (name string, headers, comments, preamble []string) {
+	return f.name, append([]string{}, f.headers...), append([]string{}, f.comments...), append([]string{}, f.cgoPreamble...)
+}
